@@ -476,7 +476,10 @@ fn check_results(c: &mut C) -> Result<(), Violation> {
                 // per destination: transmissions at 0, 1, 3, 7 s and the 10 s time-out (acted upon at the next
                 // wake-up); destinations = configured servers the build keeps, or the two mDNS groups
                 let dests = if q.mdns { 2 } else { c.n_servers.max(1) } as i64;
-                let bound = dests * 15_000_000 + 25_000_000 + c.late_total;
+                // (while a server cannot be reached at the link layer the socket works its queries off one after the
+                // other - a failing emit ends the dispatch pass - so the time-outs of concurrent queries add up)
+                let serial = if c.eth_mac.is_some() { c.qs.len() as i64 } else { 1 };
+                let bound = serial * dests * 15_000_000 + 25_000_000 + c.late_total;
                 if c.props.has("C19") && c.now - q.started > bound {
                     return Err(viol("C19", "termination", "C19.termination/query-still-pending", format!("query {:?} still pending {} s after it was started (polled per poll_at)", q.name, (c.now - q.started) / 1_000_000)));
                 }
@@ -524,7 +527,7 @@ fn body(c: &mut C, thorough: bool) -> Result<(), Violation> {
     for _ in 0..nq {
         start_query(c)?;
     }
-    let horizon = c.now + if thorough { 200_000_000 } else { 90_000_000 };
+    let horizon = c.now + if thorough { 200_000_000 } else { 90_000_000 } + if c.eth_mac.is_some() { 6 * 15_000_000 * c.n_servers.max(2) as i64 } else { 0 };
     let mut extra_queries = c.tape.draw(3);
     let mut steps = 0;
     let mut idle = 0u32;
